@@ -95,7 +95,11 @@ theorem unknown_segment_refused (st : Stored) (rq : Req) (s : Nat) (hs : s ∈ r
   readCore_not_admitted st rq (fun h => hn (h.1 s hs))
 
 /-- **A request naming a segment number twice is refused** (tie T: T8p), for every segmentation type and every option — a
-repeated number has no single "1-based position in the request", and a label-map pixel cannot be set in two channels. -/
+repeated number has no single "1-based position in the request", and a label-map pixel cannot be set in two channels.  The test
+is the first statement of `_get_segment_remap_values`, which all five entry points call with the caller's numbers before they
+open the frame query (T8k: exactly one such call each), so the refusal is a ValueError for all 48 combinations of type ×
+combine × relabel × skip — never the UNIQUE constraint of the temporary channel table (`remapDup` below it is unreachable for
+accepted requests and kept as what the database would do).  The correspondence fails any refusal that is an sqlite3 error. -/
 theorem repeated_segment_refused (st : Stored) (rq : Req) (h : ¬ rq.segs.Nodup) : readCore st rq = .error .value :=
   readCore_not_admitted st rq (fun h' => h h'.2)
 
